@@ -464,6 +464,221 @@ def translate(repo):
     return "\n".join(out) + "\n"
 
 
+
+
+# =====================================================================================================================
+# backends.py: CollectionBackendBase.put / get / flush / keys and UkvCollectionBackend._write / _read / update_keys
+# -> terms of coq/Model/MiniPyB.v (Gen/BackendCode.v).  Same rules: syntactic, fail-closed.
+# =====================================================================================================================
+BERR = {"IOError": "BIO", "OSError": "BIO", "UnsupportedOperation": "BUnsupported", "KeyError": "BKey"}
+
+
+class BackendTranslator:
+    def __init__(self, src, ukv: Translator):
+        self.tree = ast.parse(src)
+        self.ukv = ukv
+        cls = {n.name: {m.name: m for m in n.body if isinstance(m, ast.FunctionDef)} for n in self.tree.body if isinstance(n, ast.ClassDef)}
+        if "CollectionBackendBase" not in cls or "UkvCollectionBackend" not in cls:
+            raise Refuse("backend classes not found")
+        self.methods = dict(cls["CollectionBackendBase"]); self.methods.update(cls["UkvCollectionBackend"])   # method resolution order
+        um = self.methods.get("used_memory")
+        b = Translator._body(um) if um is not None else []
+        if not (um is not None and Translator._is_prop(um) and len(b) == 1 and isinstance(b[0], ast.Return)
+                and self._self_attr(b[0].value) == "_usedmem"):
+            raise Refuse("used_memory is not `return self._usedmem`")
+        k = self.methods.get("keys")
+        b = Translator._body(k) if k is not None else []
+        if not (len(b) == 1 and isinstance(b[0], ast.Return) and self._self_attr(b[0].value) == "_keys"):
+            raise Refuse("keys() is not `return self._keys`")
+        self.defined = []
+
+    @staticmethod
+    def _self_attr(n):
+        return n.attr if isinstance(n, ast.Attribute) and isinstance(n.value, ast.Name) and n.value.id == "self" else None
+
+    def _queue(self, n):
+        return self._self_attr(n) == "_write_queue"
+
+    def _local(self, n, allow_encode=True):
+        """a local name, possibly through .encode() (keys are modelled by their utf-8 bytes)"""
+        if isinstance(n, ast.Name) and n.id != "self":
+            return f"(BELocal {cq_str(n.id)})"
+        if allow_encode and isinstance(n, ast.Call) and isinstance(n.func, ast.Attribute) and n.func.attr == "encode" and not n.args \
+                and not n.keywords and isinstance(n.func.value, ast.Name):
+            return f"(BELocal {cq_str(n.func.value.id)})"
+        raise Refuse(f"argument {ast.dump(n)[:80]}")
+
+    def _k_for_k_in_queue(self, gen, elt_pred):
+        """<elt> for k, _ in self._write_queue   -> the name bound to the key"""
+        if not (isinstance(gen, ast.GeneratorExp) and len(gen.generators) == 1):
+            return None
+        c = gen.generators[0]
+        if c.ifs or c.is_async or not self._queue(c.iter):
+            return None
+        if not (isinstance(c.target, ast.Tuple) and len(c.target.elts) == 2 and all(isinstance(x, ast.Name) for x in c.target.elts)):
+            return None
+        return elt_pred(gen.elt, c.target.elts[0].id)
+
+    def cond(self, t):
+        if self._self_attr(t) == "_readonly":
+            return "BEReadonly"
+        if isinstance(t, ast.Compare) and len(t.ops) == 1 and isinstance(t.ops[0], ast.Gt) \
+                and self._self_attr(t.left) == "used_memory" and self._self_attr(t.comparators[0]) == "_bufsize":
+            return "BEOverBudget"
+        if isinstance(t, ast.Call) and isinstance(t.func, ast.Name) and t.func.id == "any" and len(t.args) == 1 and not t.keywords:
+            def pred(elt, kname):
+                if isinstance(elt, ast.Compare) and len(elt.ops) == 1 and isinstance(elt.ops[0], ast.Eq):
+                    a, b = elt.left, elt.comparators[0]
+                    if isinstance(a, ast.Name) and isinstance(b, ast.Name) and kname in (a.id, b.id) and a.id != b.id:
+                        return a.id if b.id == kname else b.id
+                return None
+            other = self._k_for_k_in_queue(t.args[0], pred)
+            if other:
+                return f"(BEQueued (BELocal {cq_str(other)}))"
+        raise Refuse(f"condition {ast.dump(t)[:100]}")
+
+    def call_self(self, call, ret):
+        name = call.func.attr
+        m = self.methods.get(name)
+        if m is None or name not in self.defined:
+            raise Refuse(f"self.{name}() is not a translated method (or is used before its translation)")
+        params = [a.arg for a in m.args.args[1:]]
+        if call.keywords or len(call.args) != len(params) or any(not (isinstance(a, ast.Name) and a.id == p) for a, p in zip(call.args, params)):
+            raise Refuse(f"self.{name}(...): arguments must be the callee's own parameter names")
+        cname = {"put": "bput", "get": "bget"}.get(name, name.lstrip("_"))
+        return f"({'BCallRet' if ret else 'BCall'} {cname}_prog)"
+
+    def call_ukv(self, call, ret):
+        """self._ukvfile.<m>(args)"""
+        name = call.func.attr
+        if name not in ("put", "get") or name not in self.ukv.defined:
+            raise Refuse(f"self._ukvfile.{name}")
+        m = self.ukv.classes["UKVFile"][name]
+        params = [a.arg for a in m.args.args[1:]]
+        if call.keywords or len(call.args) != len(params):
+            raise Refuse(f"self._ukvfile.{name}: argument list")
+        args = "; ".join(f"({cq_str(p)}, {self._local(a)})" for p, a in zip(params, call.args))
+        return f"({'BUkvCallRet' if ret else 'BUkvCall'} {name}_prog [{args}])"
+
+    def st(self, n):
+        if isinstance(n, ast.Expr) and isinstance(n.value, ast.Constant):
+            return []
+        if isinstance(n, ast.Pass):
+            return []
+        if isinstance(n, ast.If):
+            return [f"(BIf {self.cond(n.test)} {self.block(n.body)} {self.block(n.orelse)})"]
+        if isinstance(n, ast.Raise) and n.exc is not None:
+            c = n.exc.func if isinstance(n.exc, ast.Call) else n.exc
+            if isinstance(c, ast.Name) and c.id in BERR:
+                return [f"(BRaise {BERR[c.id]})"]
+            raise Refuse(f"raise {ast.dump(c)[:60]}")
+        if isinstance(n, ast.AugAssign) and isinstance(n.op, ast.Add) and self._self_attr(n.target) == "_usedmem":
+            v = n.value
+            if isinstance(v, ast.BinOp) and isinstance(v.op, ast.Add):
+                lens = []
+                for side in (v.left, v.right):
+                    if isinstance(side, ast.Call) and isinstance(side.func, ast.Name) and side.func.id == "len" and len(side.args) == 1:
+                        lens.append(self._local(side.args[0], False))
+                if len(lens) == 2:
+                    return [f"(BUsedAddLens {lens[0]} {lens[1]})"]
+            raise Refuse("self._usedmem += <not len(a) + len(b)>")
+        if isinstance(n, ast.Assign) and len(n.targets) == 1 and self._self_attr(n.targets[0]) == "_usedmem" \
+                and isinstance(n.value, ast.Constant) and n.value.value == 0:
+            return ["BUsedReset"]
+        if isinstance(n, ast.Assign) and len(n.targets) == 1 and self._self_attr(n.targets[0]) == "_keys":
+            v = n.value                      # {k.decode() for k in self._ukvfile.keys()}
+            ok = (isinstance(v, ast.SetComp) and len(v.generators) == 1 and not v.generators[0].ifs
+                  and isinstance(v.generators[0].target, ast.Name)
+                  and isinstance(v.elt, ast.Call) and isinstance(v.elt.func, ast.Attribute) and v.elt.func.attr == "decode"
+                  and isinstance(v.elt.func.value, ast.Name) and v.elt.func.value.id == v.generators[0].target.id and not v.elt.args
+                  and isinstance(v.generators[0].iter, ast.Call) and isinstance(v.generators[0].iter.func, ast.Attribute)
+                  and v.generators[0].iter.func.attr == "keys" and self._self_attr(v.generators[0].iter.func.value) == "_ukvfile"
+                  and not v.generators[0].iter.args)
+            if ok:
+                return ["(BKeysFromUkv keys_expr)"]
+            raise Refuse("self._keys = <not {k.decode() for k in self._ukvfile.keys()}>")
+        if isinstance(n, ast.Return) and isinstance(n.value, ast.Call) and isinstance(n.value.func, ast.Attribute):
+            f = n.value.func
+            if isinstance(f.value, ast.Name) and f.value.id == "self":
+                return [self.call_self(n.value, True)]
+            if self._self_attr(f.value) == "_ukvfile":
+                return [self.call_ukv(n.value, True)]
+        if isinstance(n, ast.Expr) and isinstance(n.value, ast.Call) and isinstance(n.value.func, ast.Attribute):
+            c, f = n.value, n.value.func
+            if isinstance(f.value, ast.Name) and f.value.id == "self":
+                return [self.call_self(c, False)]
+            if self._self_attr(f.value) == "_ukvfile":
+                return [self.call_ukv(c, False)]
+            if self._queue(f.value) and f.attr == "append" and len(c.args) == 1 and isinstance(c.args[0], ast.Tuple) and len(c.args[0].elts) == 2:
+                return [f"(BQueueAppend {self._local(c.args[0].elts[0], False)} {self._local(c.args[0].elts[1], False)})"]
+            if self._self_attr(f.value) == "_keys" and f.attr == "add" and len(c.args) == 1:
+                return [f"(BKeysAdd {self._local(c.args[0], False)})"]
+            if self._self_attr(f.value) == "_keys" and f.attr == "update" and len(c.args) == 1:
+                if self._k_for_k_in_queue(c.args[0], lambda elt, k: isinstance(elt, ast.Name) and elt.id == k):
+                    return ["BKeysAddQueued"]
+            raise Refuse(f"call {ast.dump(c)[:100]}")
+        if isinstance(n, ast.While) and not n.orelse and self._queue(n.test) and n.body:
+            h = n.body[0]                   # key, value = self._write_queue.popleft()
+            ok = (isinstance(h, ast.Assign) and len(h.targets) == 1 and isinstance(h.targets[0], ast.Tuple) and len(h.targets[0].elts) == 2
+                  and all(isinstance(x, ast.Name) for x in h.targets[0].elts)
+                  and isinstance(h.value, ast.Call) and isinstance(h.value.func, ast.Attribute) and h.value.func.attr == "popleft"
+                  and self._queue(h.value.func.value) and not h.value.args)
+            if ok:
+                kx, vx = (x.id for x in h.targets[0].elts)
+                return [f"(BWhilePop {cq_str(kx)} {cq_str(vx)} {self.block(n.body[1:])})"]
+            raise Refuse("while self._write_queue: <first statement is not `k, v = self._write_queue.popleft()`>")
+        if isinstance(n, ast.Try) and not n.finalbody and not n.orelse and len(n.handlers) == 1:
+            hd = n.handlers[0]
+            if hd.type is not None and not (isinstance(hd.type, ast.Name) and hd.type.id in ("BaseException", "Exception")):
+                raise Refuse("except clause that does not catch every exception of the body")
+            if hd.name is not None or not (hd.body and isinstance(hd.body[-1], ast.Raise) and hd.body[-1].exc is None):
+                raise Refuse("except handler that does not end in a bare raise")
+            return [f"(BTryReraise {self.block(n.body)} {self.block(hd.body[:-1])})"]
+        raise Refuse(f"statement {ast.dump(n)[:120]}")
+
+    def block(self, body):
+        out = []
+        for s in body:
+            out += self.st(s)
+        out = [o for o in out if o != "BSkip"] or ["BSkip"]
+        res = out[-1]
+        for o in reversed(out[:-1]):
+            res = f"(BSeq {o} {res})"
+        return res
+
+    def method(self, name):
+        m = self.methods.get(name)
+        if m is None:
+            raise Refuse(f"method {name} not found")
+        body = self.block(Translator._body(m))
+        self.defined.append(name)
+        return body, [a.arg for a in m.args.args[1:]]
+
+
+BMETHODS = ["update_keys", "_write", "_read", "flush", "put", "get"]
+
+
+def translate_backend(repo):
+    T = Translator(open(os.path.join(repo, "molli", "storage", "ukvfile.py")).read())
+    for name in ("get", "put"):
+        T.method(name)                     # establishes that the inner methods are translatable (their terms live in Gen/UKVCode.v)
+    B = BackendTranslator(open(os.path.join(repo, "molli", "storage", "backends.py")).read(), T)
+    out = ["(* GENERATED by harness/ukv_translate.py from molli/storage/backends.py -- do not edit.",
+           "   CollectionBackendBase.put/get/flush and UkvCollectionBackend._write/_read/update_keys as terms of Model/MiniPyB.v;",
+           "   calls on self._ukvfile carry the translated UKVFile methods of Gen/UKVCode.v. *)",
+           "From Coq Require Import NArith List String.", "Import ListNotations.",
+           "From Molli Require Import Model.UKV Model.MiniPy Model.Backend Model.MiniPyB Gen.UKVCode.",
+           "Local Open Scope N_scope.", "Local Open Scope string_scope.", ""]
+    for name in BMETHODS:
+        body, params = B.method(name)
+        cname = {"put": "bput", "get": "bget"}.get(name, name.lstrip("_"))
+        out.append(f"(* def {name}(self{''.join(', ' + p for p in params)}) *)")
+        out.append(f"Definition {cname}_prog : bstmt :=\n  {body}.\n")
+    # inside the generated terms put/get of the BACKEND are referred to by their own names
+    return "\n".join(out) + "\n"
+
+
 if __name__ == "__main__":
     import sys
-    print(translate(sys.argv[1] if len(sys.argv) > 1 else "/repo"))
+    repo = sys.argv[1] if len(sys.argv) > 1 else "/repo"
+    print(translate_backend(repo) if len(sys.argv) > 2 and sys.argv[2] == "backend" else translate(repo))
